@@ -261,7 +261,18 @@ func genC(t *rapid.T) CaseC {
 		mut.Detail = br.ty.Name()
 		place = nw
 	case "wrong-kind":
-		n := rapid.SampledFrom(attrs).Draw(t, "mt")
+		// value kind first, so that ints, bools, lists and maps are not drowned by the many strings
+		byKind := map[string][]*node{}
+		for _, a := range attrs {
+			byKind[a.F.vk] = append(byKind[a.F.vk], a)
+		}
+		var vks []string
+		for _, k := range []string{"bool", "int", "list", "map", "string"} {
+			if len(byKind[k]) > 0 {
+				vks = append(vks, k)
+			}
+		}
+		n := rapid.SampledFrom(byKind[rapid.SampledFrom(vks).Draw(t, "mvk")]).Draw(t, "mt")
 		w := rapid.SampledFrom(wrongKinds[n.F.vk]).Draw(t, "mw")
 		n.Expr, n.ExprHD = w.expr, false
 		mut.Detail, mut.Target = w.detail, n.Path
@@ -377,7 +388,11 @@ func diagList(d hcl.Diagnostics) string {
 func classifyC(c CaseC) core.Class {
 	var cl core.Class
 	cl.NonTrivial = true
-	cl.Labels = []string{"mut:" + c.Mut.Kind, "mut:" + c.Mut.Kind + "|" + c.Mut.Detail}
+	cl.Labels = []string{"mut:" + c.Mut.Kind}
+	switch c.Mut.Kind {
+	case "wrong-kind", "drop-required", "attr-as-block", "dup-single-block":
+		cl.Labels = append(cl.Labels, c.Mut.Kind+":"+c.Mut.Detail)
+	}
 	depth := strings.Count(c.Mut.Target, ".")
 	cl.Labels = append(cl.Labels, fmt.Sprintf("depth:%d", depth))
 	cl.Fingerprint = fmt.Sprintf("%s|%s|depth=%d", c.Mut.Kind, c.Mut.Detail, depth)
